@@ -441,6 +441,10 @@ def moma_case(case):
         warnings.simplefilter("ignore")
         wt_model = gennet.to_cobra(wt, case["solver"])
         try:
+            if len(wt["rxns"]) % 2 == 1:
+                # the reference may come from a model object whose reactions are in another order (as after a
+                # rolled-back removal): a reference flux belongs to the reaction of the same identifier
+                wt_model.reactions.sort(key=lambda r: r.id, reverse=True)
             ref_sol = reference(case, wt_model)
         except Exception as e:  # noqa  (wild type infeasible: no reference exists, out of the quantifier)
             return None, {"skipped": True, "stats": {"kind": "moma", "skipped": "no reference: " + type(e).__name__}}
@@ -615,6 +619,10 @@ def room_case(case):
         warnings.simplefilter("ignore")
         wt_model = gennet.to_cobra(wt, case["solver"])
         try:
+            if len(wt["rxns"]) % 2 == 1:
+                # the reference may come from a model object whose reactions are in another order (as after a
+                # rolled-back removal): a reference flux belongs to the reaction of the same identifier
+                wt_model.reactions.sort(key=lambda r: r.id, reverse=True)
             ref_sol = reference(case, wt_model)
         except Exception as e:  # noqa
             return None, {"skipped": True, "stats": {"kind": "room", "skipped": "no reference: " + type(e).__name__}}
